@@ -4,7 +4,8 @@ from . import progs
 from .c01 import compositions
 
 RULE = ("command sequences delivered under arrival schedules: strict lock-step (one command per read), pipelining depth "
-        "1..8 (k commands per read), random chunkings, and ALL compositions of short conversations into reads; the harness's "
+        "1..8 (k commands per read), random chunkings, multi-packet commands around exact multiples of a small packet limit "
+        "(lock-step, depth 2, random chunkings), reads that exactly fill the receive buffer's spare capacity, and ALL compositions of short conversations into reads; the harness's "
         "instrumented transport logs every read/write/flush in order; oracle: at every read() the server has flushed "
         "everything it wrote, and the number of complete replies in the flushed output equals the number of reply-expecting "
         "commands wholly contained in the bytes delivered so far; commands delivered in one read are all answered before the "
@@ -24,7 +25,8 @@ def oracle(case, obs):
     i = 0
     while i < len(stream):
         ln = int.from_bytes(stream[i:i + 3], "little"); i += 4 + ln
-        ends.append(i)
+        if ln < case.lim:      # a packet shorter than the limit ends the command
+            ends.append(i)
     kinds = ["hs"] + [k for k, _, _ in case.meta["cmds"]]
     for l in obs:
         if l.startswith("w|"):
@@ -93,6 +95,41 @@ def run(ctx):
         cmds, scripts = conv(rng.randint(2, 12))
         c = mk_case("c12_%d" % i, cmds, scripts, chunks=[rng.randint(1, 11) for _ in range(7)])
         c.meta["depth"] = 0
+        cases.append(c)
+    # multi-packet commands at small packet limits (payloads around exact multiples of the limit), lock-step,
+    # pipelined and randomly chunked; and the buffer-boundary streams of C01
+    for lim in (4, 8):
+        for rep in range(2 if ctx.quick() else 20):
+            for depth in (1, 2, 0):
+                i += 1
+                cmds, scripts = [], []
+                for ln in rng.sample([lim - 1, lim, lim + 1, 2 * lim, 2 * lim + 1, 3 * lim], 4):
+                    cmds.append(("query", b"\x03" + bytes(rng.choice(b"abcd") for _ in range(ln - 1)))); scripts.append("q done 1 1")
+                    if rng.random() < 0.5:
+                        cmds.append(("ping", cmd_ping()))
+                c = mk_case("c12_%d" % i, cmds, scripts, lim=lim,
+                            chunks=[rng.randint(1, 11) for _ in range(7)] if depth == 0 else None)
+                if depth:
+                    stream = c.meta["stream"]
+                    bounds, j = [], 0
+                    while j < len(stream):
+                        ln = int.from_bytes(stream[j:j + 3], "little"); j += 4 + ln
+                        if ln < lim:
+                            bounds.append(j)
+                    cut = [bounds[0]] + bounds[depth::depth]
+                    if cut[-1] != bounds[-1]:
+                        cut.append(bounds[-1])
+                    toks, prev = [], 0
+                    for b in cut:
+                        if b > prev:
+                            toks.append("d:" + hexspec(stream[prev:b])); prev = b
+                    c.reads = toks
+                c.meta["depth"] = 100 + depth
+                cases.append(c)
+    from .c01 import gen_fill
+    for c in gen_fill(ctx):
+        c.id = c.id.replace("c01_", "c12_"); c.meta["depth"] = 200
+        c.scripts = ["q done 1 1" for k, _, _ in c.meta["cmds"] if k == "query"]
         cases.append(c)
     # all compositions of a short conversation (after the handshake)
     cmds = [("ping", cmd_ping()), ("ping", cmd_ping())]
